@@ -81,6 +81,10 @@ def run(seed=0):
                 ("histogram", lambda: NPX.histogram(_c(a), bins=_c(np.array([-3.0, 0.0, 1.5, 6.0])))[0],
                  lambda: np.histogram(a, bins=np.array([-3.0, 0.0, 1.5, 6.0]))[0]),
                 ("flatnonzero", lambda: NPX.flatnonzero(_c(a) > 1.0), lambda: np.flatnonzero(a > 1.0)),
+                ("matmul", lambda: None if n < 2 else NPX.matmul(_c(np.c_[a, b]), _c(np.array([[0.5, -1.0], [2.0, 0.25]]))),
+                 lambda: None if n < 2 else np.c_[a, b] @ np.array([[0.5, -1.0], [2.0, 0.25]])),
+                ("quantile-axis0", lambda: None if n < 2 else NPX.quantile(_c(np.c_[a, b]), q, axis=0),
+                 lambda: None if n < 2 else np.quantile(np.c_[a, b], q, axis=0)),
                 ("clip", lambda: NPX.clip(_c(a), 0.0, 1.0), lambda: np.clip(a, 0.0, 1.0)),
                 ("le-and", lambda: (_c(a) <= 2.0) & (_c(b) > 0.5), lambda: (a <= 2.0) & (b > 0.5)),
                 ("linalg.norm", lambda: None if n < 2 else NPX.linalg.norm(_c(np.abs(a) + 1)) ** 2,
